@@ -4,7 +4,7 @@
 From Coq Require Import List.
 From SDC Require Import Conc.Model.
 Import ListNotations.
-Definition prog_GetMdib : list act := [AcqMdib; ReadContent; ReadVersion; RelMdib; ReadVersion].
+Definition prog_GetMdib : list act := [AcqMdib; ReadContent; ReadVersion; RelMdib].
 Definition prog_GetMdState : list act := [AcqMdib; ReadContent; ReadVersion; RelMdib].
 Definition prog_GetMdStateAll : list act := [AcqMdib; ReadContent; ReadVersion; RelMdib].
 Definition prog_GetMdDescription : list act := [AcqMdib; ReadContent; ReadVersion; RelMdib].
